@@ -299,33 +299,42 @@ func (MonC14) State(x *Exec) *Violation {
 		// nested passes over the same sequence value (an all-pairs loop): an inner pass, complete or
 		// abandoned, started from inside the outer pass must not disturb either of them
 		if len(full) >= 2 {
-			for _, abandon := range []bool{false, true} {
-				var outer, inner []Pair
+			// inner passes started from inside the outer pass at its first, second and last element: a complete one, an
+			// abandoned one, and an abandoned one followed by a complete one (a pass that hands back, on its early exit,
+			// something it had not borrowed would give the third pass the outer pass's working memory)
+			for _, mode := range []string{"complete", "abandoned", "abandoned, then complete"} {
+				var outer []Pair
+				var bad *Violation
 				p := safely(func() {
 					seq(func(pr Pair) bool {
 						outer = append(outer, pr)
-						if len(outer) == 1 {
-							seq(func(in Pair) bool {
-								inner = append(inner, in)
-								return !abandon
-							})
+						if n := len(outer); n == 1 || n == 2 || n == len(full) {
+							if mode != "complete" {
+								var inner []Pair
+								seq(func(in Pair) bool { inner = append(inner, in); return false })
+								if !PairsEqual(inner, full[:1]) && bad == nil {
+									bad = viol(fmt.Sprintf("%s, abandoned inner pass started at element %d of an outer pass over the same sequence value", what, n), PairsString(u, full[:1]), PairsString(u, inner))
+								}
+							}
+							if mode != "abandoned" {
+								inner := Collect(seq)
+								if !PairsEqual(inner, full) && bad == nil {
+									bad = viol(fmt.Sprintf("%s, inner pass (%s) started at element %d of an outer pass over the same sequence value", what, mode, n), PairsString(u, full), PairsString(u, inner))
+								}
+							}
 						}
 						return true
 					})
 				})
 				x.Stats.Evaluations++
-				wi := full
-				if abandon {
-					wi = full[:1]
-				}
 				if p != "" {
-					return viol(what+", a pass nested inside another pass over the same sequence value", PairsString(u, full), "panic: "+p)
+					return viol(what+", passes ("+mode+") nested inside another pass over the same sequence value", PairsString(u, full), "panic: "+p)
 				}
-				if !PairsEqual(inner, wi) {
-					return viol(what+", inner pass started inside an outer pass over the same sequence value", PairsString(u, wi), PairsString(u, inner))
+				if bad != nil {
+					return bad
 				}
 				if !PairsEqual(outer, full) {
-					return viol(what+", outer pass after an inner pass over the same sequence value", PairsString(u, full), PairsString(u, outer))
+					return viol(what+", outer pass with inner passes ("+mode+") over the same sequence value", PairsString(u, full), PairsString(u, outer))
 				}
 			}
 		}
